@@ -281,7 +281,7 @@ def run_unit(ex, unit, res):
         compare_pool(ex, p, res, 'initial pool')
         trace = []
         for step in range(depth):
-            op = ex.choose(first_ops if step == 0 else unit.get('later_ops', OPS))
+            op = ex.choose(first_ops if step == 0 else (unit['second_ops'] if step == 1 and 'second_ops' in unit else unit.get('later_ops', OPS)))
             tgt = ex.choose(unit.get('first_targets', [0, 1, 2])) if step == 0 else ex.choose([0, 1])
             p.extra = None
             d = apply_op(ex, p, op, tgt, step)
@@ -351,5 +351,5 @@ def units(tier):
     us = [{'first_ops': [op], 'first_targets': [t], 'depth': 2} for op in OPS for t in (0, 1, 2)]
     if tier != 'quick':
         # depth 3 over the operations that restructure chunks
-        us += [{'first_ops': [op], 'first_targets': [t], 'depth': 3, 'later_ops': CORE_OPS} for op in CORE_OPS for t in (0, 1)]
+        us += [{'first_ops': [op], 'first_targets': [t], 'depth': 3, 'second_ops': [op2], 'later_ops': CORE_OPS} for op in CORE_OPS for t in (0, 1) for op2 in CORE_OPS]
     return us
